@@ -182,6 +182,7 @@ pub struct Model<'a> {
     pull_snapshot: HashMap<CallId, (u64, usize, usize, bool)>, // activity at invoke, avail count, inst, calm
     ack_snapshot: HashMap<CallId, Vec<(usize, u64, bool, bool)>>, // (inst, mkey, definitely_live, in_window)
     inflight_pubs: HashSet<CallId>,
+    delete_target: HashMap<CallId, usize>,
     mod_snapshots: HashMap<CallId, Vec<ModSnap>>,
     #[allow(clippy::type_complexity)]
     stream_snaps: HashMap<usize, (Vec<(usize, u64, bool, bool)>, Vec<ModSnap>)>,
@@ -317,7 +318,7 @@ impl<'a> Model<'a> {
     }
 
     #[allow(clippy::too_many_arguments)]
-    fn deliver(&mut self, si: usize, r: &Recv, lo_idx: usize, via_stream: bool) {
+    fn deliver(&mut self, si: usize, r: &Recv, lo_idx: usize, via_stream: bool, handout_from: u64) {
         let now = self.now;
         let idx = self.idx;
         self.rep.feat.deliveries += 1;
@@ -420,7 +421,7 @@ impl<'a> Model<'a> {
         // Ack / modify requests that overlap the consumer call that produced this delivery may
         // name the (predictable) ack id it was about to be given: their effect on this lease is
         // not determined.
-        let (mut lo, mut hi) = (now + d * SEC, now + d * SEC + SLACK);
+        let (mut lo, mut hi) = (handout_from.min(now) + d * SEC, now + d * SEC + SLACK);
         let (mut maybe_gone, mut maybe_acked) = (false, false);
         for (start, end, acks, mods) in self.subs[si].mutations.iter() {
             if *start > idx || *end < lo_idx {
@@ -494,7 +495,10 @@ impl<'a> Model<'a> {
                     last_first = Some(id);
                 }
             }
-            self.deliver(si, r, lo_idx, via_stream);
+            // a call whose future was polled by hand (PollDrop) may have been answered by the
+            // server some time before the harness took the answer
+            let handout_from = if self.tr.calls[call].polls.is_some() { self.tr.calls[call].invoke_t } else { self.now };
+            self.deliver(si, r, lo_idx, via_stream, handout_from);
         }
     }
 
@@ -622,8 +626,8 @@ impl<'a> Model<'a> {
                     if !ok {
                         // indeterminate: keep the widened window
                         *hi_known = (*hi_known).max(now + eff_secs(*n) * SEC + SLACK);
-                        if *hi == u64::MAX && !still_pending {
-                            *hi = *hi_known;
+                        if !still_pending {
+                            *hi = if *hi == u64::MAX { *hi_known } else { (*hi).max(*hi_known) };
                         }
                         let _ = old_hi;
                         continue;
@@ -771,6 +775,7 @@ impl<'a> Model<'a> {
                         if self.subs[i].del_i.is_none() {
                             self.subs[i].del_i = Some(idx);
                         }
+                        self.delete_target.insert(call, i);
                         let waiting = !self.subs[i].consumers.is_empty();
                         if waiting {
                             self.rep.feat.delete_with_open_stream_or_blocked_pull = true;
@@ -847,6 +852,20 @@ impl<'a> Model<'a> {
                     let start = self.idx;
                     self.subs[si].mutations.push((start, end, ack_ids.clone(), vec![]));
                 }
+                // ack ids are predictable counters: while leases handed to an abandoned consumer
+                // may exist, an id nobody was given can still name one of them
+                if let Some(si) = self.cur_sub(&sub) {
+                    if self.subs[si].tainted_until != 0 {
+                        let known: Vec<bool> = ack_ids.iter().map(|a| self.subs[si].lease_by_ack.contains_key(a)).collect();
+                        if ack_ids.iter().zip(known.iter()).any(|(a, k)| !*k && a.parse::<u64>().is_ok()) {
+                            for (_, st) in self.subs[si].msgs.iter_mut() {
+                                if matches!(st, Ms::MaybeLeased) {
+                                    *st = Ms::Maybe;
+                                }
+                            }
+                        }
+                    }
+                }
                 let snap = self.apply_ack_invoke(&sub, &ack_ids, Some(call));
                 self.ack_snapshot.insert(call, snap);
                 if let Some(si) = self.cur_sub(&sub) {
@@ -883,6 +902,15 @@ impl<'a> Model<'a> {
                 }
                 if classes.len() >= 2 {
                     self.rep.feat.modify_mixed_classes = true;
+                }
+                if secs > 0 && all_valid {
+                    // an id nobody was given may extend the lease of an abandoned consumer
+                    if let Some(si) = self.cur_sub(&sub) {
+                        if self.subs[si].tainted_until != 0 && ack_ids.iter().any(|a| !self.subs[si].lease_by_ack.contains_key(a)) {
+                            let until = self.now + eff_secs(secs) * SEC + SLACK + 1_000_000;
+                            self.subs[si].tainted_until = self.subs[si].tainted_until.max(until);
+                        }
+                    }
                 }
                 if secs >= 0 && all_valid {
                     let mods: Vec<(String, i32)> = ack_ids.iter().map(|a| (a.clone(), secs)).collect();
@@ -935,6 +963,26 @@ impl<'a> Model<'a> {
         let (_, _, out) = c.done.clone().unwrap();
         let code = out.code();
         let idx = self.idx;
+        // C18 at the RPC level: a name the server accepts and answers for must be the name it
+        // echoes, unless both spellings denote the same (project, id) under the reference grammar
+        {
+            let (asked, echoed, seg): (Option<&String>, Option<&String>, &str) = match (&c.req, &out) {
+                (Req::CreateTopic { name }, Outcome::Topic { name: e }) | (Req::GetTopic { name }, Outcome::Topic { name: e }) => (Some(name), Some(e), "topics"),
+                (Req::CreateSub { name, .. }, Outcome::Sub(v)) | (Req::GetSub { name }, Outcome::Sub(v)) => (Some(name), Some(&v.name), "subscriptions"),
+                _ => (None, None, ""),
+            };
+            if let (Some(a), Some(e)) = (asked, echoed) {
+                if a != e {
+                    let pa = crate::pure::ref_parse(a, seg);
+                    let pe = crate::pure::ref_parse(e, seg);
+                    if pa.is_none() {
+                        self.v("accepted_outside_grammar", &["C18", "C17"], format!("request naming {:?} was accepted (echoed {:?}) although the name is outside the grammar", a, e));
+                    } else if pa != pe {
+                        self.v("names_not_injective", &["C18"], format!("a request naming {:?} was answered with the resource {:?}: two names that differ in project or ID denote the same resource", a, e));
+                    }
+                }
+            }
+        }
         match &c.req {
             Req::CreateTopic { name } => {
                 let n = self.tnames.entry(name.clone()).or_default();
@@ -1062,11 +1110,25 @@ impl<'a> Model<'a> {
                 let n = self.snames.entry(name.clone()).or_default();
                 n.flux = n.flux.saturating_sub(1);
                 if code == 0 {
-                    if let Some(i) = n.inst {
-                        self.subs[i].del_r = Some(idx);
+                    // the instance this delete was aimed at; a create of the same name that
+                    // completed while the delete was in flight made a *new* instance, which
+                    // this delete (linearized before that create) did not remove
+                    let target = self.delete_target.get(&call).cloned();
+                    let cur = n.inst;
+                    match (target, cur) {
+                        (Some(tg), Some(cu)) if tg != cu && self.subs[cu].ci > c.invoke_idx => {
+                            self.subs[tg].del_r = Some(idx);
+                        }
+                        (None, Some(cu)) if self.subs[cu].ci > c.invoke_idx => {}
+                        _ => {
+                            if let Some(i) = target.or(cur) {
+                                self.subs[i].del_r = Some(idx);
+                            }
+                            let n = self.snames.get_mut(name).unwrap();
+                            n.inst = None;
+                            n.unknown = false;
+                        }
                     }
-                    n.inst = None;
-                    n.unknown = false;
                 } else if code != 5 && code != 3 {
                     n.unknown = true;
                 }
@@ -1454,9 +1516,12 @@ impl<'a> Model<'a> {
                     let s = &mut self.subs[si];
                     s.tainted_until = s.tainted_until.max(now + d * SEC + SLACK + 1_000_000);
                     s.ever_tainted = true;
+                    // an acknowledgement overlapping the abandoned call may have named (by its
+                    // predictable id) the lease that call was given
+                    let racing_ack = s.mutations.iter().any(|m| m.1 > c.invoke_idx && !m.2.is_empty());
                     for (_, st) in s.msgs.iter_mut() {
                         if matches!(st, Ms::Queued { .. }) {
-                            *st = Ms::MaybeLeased;
+                            *st = if racing_ack { Ms::Maybe } else { Ms::MaybeLeased };
                         }
                     }
                 }
@@ -1530,6 +1595,24 @@ impl<'a> Model<'a> {
             let next_qp = (idx..self.tr.events.len()).find(|i| matches!(self.tr.events[*i].kind, EvKind::Qp { .. })).unwrap_or(usize::MAX);
             let si = cur.unwrap();
             self.subs[si].mutations.push((idx, next_qp, acks.to_vec(), mods.to_vec()));
+        }
+        {
+            // same reasoning as for unary calls: ids nobody was given may name phantom leases
+            let si = cur.unwrap();
+            if self.subs[si].tainted_until != 0 {
+                if acks.iter().any(|a| !self.subs[si].lease_by_ack.contains_key(a) && a.parse::<u64>().is_ok()) {
+                    for (_, st) in self.subs[si].msgs.iter_mut() {
+                        if matches!(st, Ms::MaybeLeased) {
+                            *st = Ms::Maybe;
+                        }
+                    }
+                }
+                let ext = mods.iter().filter(|(a, n)| *n > 0 && !self.subs[si].lease_by_ack.contains_key(a)).map(|(_, n)| *n).max();
+                if let Some(n) = ext {
+                    let until = self.now + eff_secs(n) * SEC + SLACK + 1_000_000;
+                    self.subs[si].tainted_until = self.subs[si].tainted_until.max(until);
+                }
+            }
         }
         let asnap = self.apply_ack_invoke(&sub, acks, None);
         let msnap = self.apply_modify_invoke(&sub, mods);
@@ -1624,7 +1707,11 @@ impl<'a> Model<'a> {
                 let (bmin, bmax, omin, omax, smin, smax) = self.counts(si);
                 self.rep.feat.stats_compared += 1;
                 let sum = st.backlog + st.outstanding;
-                if st.backlog < bmin || st.backlog > bmax || st.outstanding < omin || st.outstanding > omax || sum < smin || sum > smax {
+                // once a consumer of this subscription has been abandoned, which of its messages sit
+                // in leases nobody holds is only loosely known: compare the total only
+                let loose = self.subs[si].ever_tainted;
+                let split_bad = st.backlog < bmin || st.backlog > bmax || st.outstanding < omin || st.outstanding > omax;
+                if (split_bad && !loose) || sum < smin || sum > smax {
                     self.v(
                         "stats_mismatch",
                         &["C01", "C02", "C03", "C04", "C05", "C16", "C17"],
